@@ -50,6 +50,45 @@ func codewordValue(m [][]bool, mods [8][2]int, unmask func(x, y int) bool) byte 
 	return v
 }
 
+// c05TwoZeroSyndromes: magnitudes for errors at the block positions pos (indices into a block of n
+// codewords, index 0 = highest degree) such that two of the ec syndromes (the two highest, the
+// two lowest, or a random pair) vanish; nil if the construction degenerates.
+func c05TwoZeroSyndromes(rng *fw.Rand, f gf.Field, n, ec int, pos []int) []int {
+	t := len(pos)
+	if t < 3 || ec < 4 {
+		return nil
+	}
+	j1, j2 := ec-1, ec-2
+	switch rng.Intn(3) {
+	case 1:
+		j1, j2 = 0, 1
+	case 2:
+		j1 = rng.Intn(ec)
+		j2 = (j1 + 1 + rng.Intn(ec-1)) % ec
+	}
+	w := func(j, p int) int { return f.PowOf(f.Pow((f.Base+j)%(f.Size-1)), n-1-p) }
+	mags := make([]int, t)
+	c1, c2 := 0, 0
+	for i := 0; i < t-2; i++ {
+		mags[i] = 1 + rng.Intn(f.Size-1)
+		c1 ^= f.Mul(mags[i], w(j1, pos[i]))
+		c2 ^= f.Mul(mags[i], w(j2, pos[i]))
+	}
+	pa, pb := pos[t-2], pos[t-1]
+	a11, a12, a21, a22 := w(j1, pa), w(j1, pb), w(j2, pa), w(j2, pb)
+	det := f.Mul(a11, a22) ^ f.Mul(a12, a21)
+	if det == 0 {
+		return nil
+	}
+	di := f.Inv(det)
+	mags[t-2] = f.Mul(di, f.Mul(c1, a22)^f.Mul(c2, a12))
+	mags[t-1] = f.Mul(di, f.Mul(c2, a11)^f.Mul(c1, a21))
+	if mags[t-2] == 0 || mags[t-1] == 0 {
+		return nil
+	}
+	return mags
+}
+
 type qrSym struct {
 	v     int
 	l     qrref.Level
@@ -122,6 +161,15 @@ func c05QRDamage(r *fw.Rec, s *qrSym, kind int) bool {
 		}
 		idxs := perBlock[b]
 		perm := rng.Perm(len(idxs))
+		if kind == 8 { // t errors whose magnitudes make two syndromes of the block vanish
+			if mags := c05TwoZeroSyndromes(rng, gf.QR256, len(idxs), 2*t, perm[:minInt(t, len(perm))]); mags != nil {
+				for i, x := range mags {
+					flipCodeword(m, s.mods[idxs[perm[i]]], byte(x))
+					damaged = append(damaged, idxs[perm[i]])
+				}
+			}
+			continue
+		}
 		if kind == 3 || kind == 7 { // extremes: first and last codewords of the block (incl. the long block's extra byte and the last EC byte)
 			perm = append([]int{0, len(idxs) - 1, 1, len(idxs) - 2}, perm...)
 		}
@@ -177,7 +225,7 @@ func c05QRDamage(r *fw.Rec, s *qrSym, kind int) bool {
 			cnt++
 		}
 	}
-	kinds := []string{"t-per-block", "random-below-t", "one-block-at-t", "extreme-positions", "inverted-codewords", "same-error-value-even-count", "one-syndrome-stays-zero", "codewords-blotted-to-00-or-FF"}
+	kinds := []string{"t-per-block", "random-below-t", "one-block-at-t", "extreme-positions", "inverted-codewords", "same-error-value-even-count", "one-syndrome-stays-zero", "codewords-blotted-to-00-or-FF", "two-syndromes-stay-zero"}
 	ok := s.decodeAndCheck(r, m, fmt.Sprintf("%d damaged codewords (%s, t=%d per block, %d blocks)", len(damaged), kinds[kind], t, nb), "qr.codewords:"+kinds[kind], map[string]interface{}{"damaged_codewords": damaged})
 	if ok {
 		r.Tally("qr_damage_" + kinds[kind])
@@ -338,6 +386,15 @@ func c05DMDamage(r *fw.Rec, d *dmSym, kind int) bool {
 		}
 		idxs := perBlock[b]
 		perm := rng.Perm(len(idxs))
+		if kind == 8 {
+			if mags := c05TwoZeroSyndromes(rng, gf.DM256, len(idxs), 2*t, perm[:minInt(t, len(perm))]); mags != nil {
+				for i, x := range mags {
+					flipCodeword(m, d.mods[idxs[perm[i]]], byte(x))
+					damaged = append(damaged, idxs[perm[i]])
+				}
+			}
+			continue
+		}
 		if kind == 3 || kind == 7 {
 			perm = append([]int{0, len(idxs) - 1, 1, len(idxs) - 2}, perm...)
 		}
@@ -393,7 +450,7 @@ func c05DMDamage(r *fw.Rec, d *dmSym, kind int) bool {
 			cnt++
 		}
 	}
-	kinds := []string{"t-per-block", "random-below-t", "", "extreme-positions", "inverted-codewords", "same-error-value-even-count", "one-syndrome-stays-zero", "codewords-blotted-to-00-or-FF"}
+	kinds := []string{"t-per-block", "random-below-t", "", "extreme-positions", "inverted-codewords", "same-error-value-even-count", "one-syndrome-stays-zero", "codewords-blotted-to-00-or-FF", "two-syndromes-stay-zero"}
 	ok := d.decodeAndCheck(r, m, fmt.Sprintf("%d damaged codewords (%s, t=%d per block, %d blocks)", len(damaged), kinds[kind], t, d.s.Blocks), "dm.codewords:"+kinds[kind], map[string]interface{}{"damaged_codewords": damaged})
 	if ok {
 		r.Tally("dm_damage_" + kinds[kind])
@@ -402,7 +459,7 @@ func c05DMDamage(r *fw.Rec, d *dmSym, kind int) bool {
 }
 
 func c05(c *fw.Ctx) {
-	c.Rule("library-written QR symbols of all 160 (version, level) pairs and Data Matrix symbols of all 30 sizes; damage applied as module flips at codeword positions computed by qrref/dmref: per RS block up to t = floor(ec/2) codewords with arbitrary replacement values (all blocks at t, random below t, one block at t, first/last positions incl. the long block's extra byte, fully inverted codewords, the same error value an even number of times, error values chosen so that one syndrome of the block stays zero, codewords - the first of a block among them - that read 0x00 or 0xFF afterwards); thorough: every single codeword position of every block; QR format information: every subset of <= 3 of 15 bits of one copy with an independent random <= 3-bit error in the other copy; version information likewise (18 bits, versions >= 7); histories of damaged symbols with many-then-few error-correction codewords per block on ONE decoder instance; oracle: decoded text identical; distinct = distinct (symbol, damage pattern)")
+	c.Rule("library-written QR symbols of all 160 (version, level) pairs and Data Matrix symbols of all 30 sizes; damage applied as module flips at codeword positions computed by qrref/dmref: per RS block up to t = floor(ec/2) codewords with arbitrary replacement values (all blocks at t, random below t, one block at t, first/last positions incl. the long block's extra byte, fully inverted codewords, the same error value an even number of times, error values chosen so that one or two syndromes of the block stay zero, codewords - the first of a block among them - that read 0x00 or 0xFF afterwards); thorough: every single codeword position of every block; QR format information: every subset of <= 3 of 15 bits of one copy with an independent random <= 3-bit error in the other copy; version information likewise (18 bits, versions >= 7); histories of damaged symbols with many-then-few error-correction codewords per block on ONE decoder instance; oracle: decoded text identical; distinct = distinct (symbol, damage pattern)")
 	c.Assume("qrref.CodewordModules / dmref.CodewordModules give the module positions of every codeword bit (cross-checked by C07/C08: the same functions build the reference symbols that the library reproduces module for module)")
 	reps := c.Pick(1, 4)
 	for v := 1; v <= 40; v++ {
@@ -417,7 +474,7 @@ func c05(c *fw.Ctx) {
 					if !s.decodeAndCheck(r, s.m, "no damage", "qr.clean", nil) {
 						return
 					}
-					for kind := 0; kind < 8; kind++ {
+					for kind := 0; kind < 9; kind++ {
 						for k := 0; k < 2; k++ {
 							if !c05QRDamage(r, s, kind) {
 								return
@@ -498,7 +555,7 @@ func c05(c *fw.Ctx) {
 				if !d.decodeAndCheck(r, d.m, "no damage", "dm.clean", nil) {
 					return
 				}
-				for _, kind := range []int{0, 1, 3, 4, 5, 6, 7} {
+				for _, kind := range []int{0, 1, 3, 4, 5, 6, 7, 8} {
 					for k := 0; k < 3; k++ {
 						if !c05DMDamage(r, d, kind) {
 							return
